@@ -466,10 +466,6 @@ theorem equal_iff' (g h : Geom α) : equal g h = true ↔ g = h := by
 theorem equalV_iff' (a b : GVal α) : equalV a b = true ↔ normV a = normV b := by
   cases a <;> cases b <;> simp [equalV, normV, equal_iff']
 
-theorem clone_equal' (v : GVal α) : equalV v (cloneV v) = true := by
-  rw [equalV_iff']
-  cases v <;> rfl
-
 end equality
 
 /-- one iteration of the swap loop of `reverse` -/
